@@ -165,6 +165,7 @@ def urls(schemes, ports, hosts, paths, queries, frags):
     return out
 
 
+BARE = ["http://uk", "http://co.uk/a", "http://github.io/docs", "http://foo.github.io.com/x", "http://a.co.uk/a"]
 SMALL = ["http://a.com", "http://a.com/x", "http://a.com/x/", "http://b.a.com/x", "http://a.com/x/y", "https://a.com",
          "http://a.com:8080/x", "http://a.com/x?q=1", "http://a.co.uk", "http://b.a.co.uk/x"]
 VARIANTS = ["HTTP://A.COM/x", "http://a.com:80/x", "http://www.a.com/x", "http://a.com/x?utm_source=1", "http://a.com/x#f",
@@ -187,13 +188,13 @@ def make_spec(cls, sa, kwargs, kind, tier="quick"):
     name = "%s-%s-sa%d-%s" % (kind, cls, sa, core.canon_json(kwargs))
     if kind == "closure":
         store = SMALL[:8] if tier == "quick" else SMALL
-        store = store + (VARIANTS[:3] if cls != "LRUTrie" else [])
-        q = QUERY_URLS[::3] + VARIANTS if tier == "quick" else QUERY_URLS + VARIANTS
+        store = store + (VARIANTS[:3] if cls != "LRUTrie" else []) + (BARE[:3] if cls == "FingerprintedLRUTrie" else [])
+        q = (QUERY_URLS[::3] + VARIANTS if tier == "quick" else QUERY_URLS + VARIANTS) + BARE
         if cls == "LRUTrie" and tier == "quick":
             return Spec(name, cls, sa, kwargs, SMALL[:6], q, with_lru=True, raw=RAW_STEMS[:2])
         return Spec(name, cls, sa, kwargs, store, q, with_lru=(cls == "LRUTrie"))
-    store = SMALL + VARIANTS
-    q = QUERY_URLS[::2] + VARIANTS
+    store = SMALL + VARIANTS + BARE[:3]
+    q = QUERY_URLS[::2] + VARIANTS + BARE
     return Spec(name, cls, sa, kwargs, store, q, with_lru=True)
 
 
@@ -216,7 +217,7 @@ def run(chk):
     )
     for cls, kwargs in CONFIGS:
         for sa in (False, True):
-            if quick and sa and kwargs:
+            if quick and sa and kwargs and kwargs != {"strip_suffix": True}:
                 continue
             sp = make_spec(cls, sa, kwargs, "closure", chk.tier)
             sp.warm()
